@@ -5,13 +5,15 @@ EXTENDS IntRangeAcl, ConfLib
 Case == Cases[i]
 Values(k) == [j \in 1..Len(k.vals) |-> ParseVal(k.vals[j])]
 ProbeVal(p) == Dec(p, Len(p))
-POk(k) == /\ ~k.ub
-          /\ \A j \in 1..Len(k.vals) : WellFormed(k.vals[j]) /\ ParseVal(k.vals[j]).lo <= ParseVal(k.vals[j]).hi
-          /\ \A j \in 1..Len(k.probes) : k.out[j] = Match(Values(k), ProbeVal(k.probes[j]))
+POk(k) == LET vs == Values(k) IN
+          /\ ~k.ub
+          /\ \A j \in 1..Len(k.vals) : WellFormed(k.vals[j]) /\ vs[j].lo <= vs[j].hi
+          /\ \A j \in 1..Len(k.probes) : k.out[j] = Match(vs, ProbeVal(k.probes[j]))
 \* today's exact behaviour: the stored list is the configured list (no merging), scan with half-open ranges
-IOk(k) == /\ Len(k.dump) = Len(k.vals)
-          /\ \A j \in 1..Len(k.dump) : ParseVal(k.dump[j]) = ParseVal(k.vals[j])
-          /\ \A j \in 1..Len(k.probes) : k.out[j] = IMatch(Build(Values(k)), ProbeVal(k.probes[j]))
+IOk(k) == LET vs == Values(k) rs == Build(vs) IN
+          /\ Len(k.dump) = Len(k.vals)
+          /\ \A j \in 1..Len(k.dump) : ParseVal(k.dump[j]) = vs[j]
+          /\ \A j \in 1..Len(k.probes) : k.out[j] = IMatch(rs, ProbeVal(k.probes[j]))
 CaseOk == i > 0 => POk(Case)
 ImplOk == i > 0 => IOk(Case)
 ====
